@@ -1,6 +1,8 @@
 package main
 
 import (
+	"os"
+	"fmt"
 	"go/ast"
 	"go/token"
 	"go/types"
@@ -34,7 +36,9 @@ func viewLoadAOF(c *Ctx) *loadAOFView {
 	}
 	v := &loadAOFView{fn: fn, info: fn.Info(), aof: c.Field("internal/server", "Server", "aof"), aofsz: c.Field("internal/server", "Server", "aofsz")}
 	v.fg = newFlowGraph(v.info, fn.Decl.Body)
-	ps := v.fg.FindCalls(func(f *types.Func, call *ast.CallExpr) bool { return isFunc(f, "github.com/tidwall/redcon", "ReadNextCommand") })
+	ps := v.fg.FindCalls(func(f *types.Func, call *ast.CallExpr) bool {
+		return isFunc(f, "github.com/tidwall/redcon", "ReadNextCommand")
+	})
 	if len(ps) > 0 {
 		v.parse = ps[0]
 	}
@@ -100,58 +104,311 @@ func ruleSizeAccounting(c *Ctx) {
 	}
 	info, fg := v.info, v.fg
 	reads := v.aofCall("Read")
-	if len(reads) != 1 {
-		c.bad("read", v.fn.Decl.Pos(), "expected exactly one s.aof.Read in loadAOF, found %d", len(reads))
-		return
-	}
-	// n := result of Read
-	var nObj types.Object
-	if as, ok := reads[0].Block.Nodes[reads[0].Idx].(*ast.AssignStmt); ok && len(as.Lhs) >= 1 {
-		if id, ok := as.Lhs[0].(*ast.Ident); ok {
-			nObj = info.ObjectOf(id)
-		}
-	}
-	adds := fg.Find(func(n ast.Node) bool {
-		as, ok := n.(*ast.AssignStmt)
-		if !ok || as.Tok != token.ADD_ASSIGN || len(as.Lhs) != 1 || selField(info, as.Lhs[0]) != v.aofsz {
-			return false
-		}
-		id, ok := ast.Unparen(as.Rhs[0]).(*ast.Ident)
-		return ok && info.ObjectOf(id) == nObj
-	})
-	c.check(len(adds) == 1 && fg.Dominates(reads[0], adds[0]) && fg.Dominates(adds[0], v.parse), "read-counted-before-parse", reads[0].Node.Pos(),
-		"aofsz += n follows the read and dominates the parse loop", "the bytes read are not added to aofsz before they are parsed: the write offset after start-up is wrong")
-	subs := fg.Find(func(n ast.Node) bool {
-		as, ok := n.(*ast.AssignStmt)
-		return ok && as.Tok == token.SUB_ASSIGN && len(as.Lhs) == 1 && selField(info, as.Lhs[0]) == v.aofsz
-	})
 	truncs := v.aofCall("Truncate")
 	seeks := v.aofCall("Seek")
-	if len(subs) != 1 || len(truncs) != 1 || len(seeks) != 1 {
-		c.bad("tail-repair", v.fn.Decl.Pos(), "expected one aofsz -= …, one Truncate and one Seek on s.aof in loadAOF; found %d/%d/%d", len(subs), len(truncs), len(seeks))
+	if len(reads) == 0 || len(truncs) == 0 || len(seeks) == 0 {
+		c.bad("tail-repair", v.fn.Decl.Pos(), "expected a Read, a Truncate and a Seek on s.aof in loadAOF; found %d/%d/%d (a torn tail is not cut off, or the write offset is not moved to the cut)", len(reads), len(truncs), len(seeks))
 		return
 	}
-	sub := subs[0].Node.(*ast.AssignStmt)
-	// the amount subtracted is the length of the carry buffer
-	lenOK := false
-	if call, ok := ast.Unparen(sub.Rhs[0]).(*ast.CallExpr); ok {
-		if id, ok := ast.Unparen(call.Fun).(*ast.Ident); ok && id.Name == "len" && len(call.Args) == 1 {
-			lenOK = true
+	// the parser's data variable and the carry buffer that is prepended to the next chunk
+	pcall := v.parse.Node.(*ast.CallExpr)
+	did, _ := ast.Unparen(pcall.Args[0]).(*ast.Ident)
+	if did == nil {
+		c.und("data", pcall.Pos(), "first argument of ReadNextCommand is not a variable")
+		return
+	}
+	dataObj := info.ObjectOf(did)
+	var carry types.Object
+	inspectNoLit(v.fn.Decl.Body, func(n ast.Node) bool {
+		as, ok := n.(*ast.AssignStmt)
+		if !ok || len(as.Lhs) != 1 || len(as.Rhs) != 1 {
+			return true
+		}
+		l, ok := as.Lhs[0].(*ast.Ident)
+		if !ok || info.ObjectOf(l) != dataObj {
+			return true
+		}
+		ap, ok := ast.Unparen(as.Rhs[0]).(*ast.CallExpr)
+		if !ok || !ap.Ellipsis.IsValid() || len(ap.Args) != 2 {
+			return true
+		}
+		if id, ok := ast.Unparen(ap.Fun).(*ast.Ident); !ok || id.Name != "append" {
+			return true
+		}
+		a0, ok0 := ast.Unparen(ap.Args[0]).(*ast.Ident)
+		a1, ok1 := ast.Unparen(ap.Args[1]).(*ast.Ident)
+		if ok0 && ok1 && info.ObjectOf(a1) == dataObj {
+			carry = info.ObjectOf(a0)
+		}
+		return true
+	})
+	if carry == nil {
+		c.und("carry", pcall.Pos(), "the buffer that carries an incomplete command into the next chunk (data = append(<carry>, data...)) was not found")
+		return
+	}
+	// affine-equality analysis of the offsets. Ghost S = aofsz at entry + bytes read so far.
+	mu := c.muLK()
+	writesAofsz := map[*types.Func]bool{}
+	isRead := func(n ast.Node) (*ast.CallExpr, ast.Expr) {
+		var call *ast.CallExpr
+		var res ast.Expr
+		if as, ok := n.(*ast.AssignStmt); ok && len(as.Rhs) == 1 {
+			if cl, ok := ast.Unparen(as.Rhs[0]).(*ast.CallExpr); ok {
+				if se, ok := ast.Unparen(cl.Fun).(*ast.SelectorExpr); ok && se.Sel.Name == "Read" && selField(info, se.X) == v.aof {
+					call = cl
+					if len(as.Lhs) >= 1 {
+						res = as.Lhs[0]
+					}
+				}
+			}
+		}
+		if call == nil {
+			inspectNoLit(n, func(m ast.Node) bool {
+				if cl, ok := m.(*ast.CallExpr); ok {
+					if se, ok := ast.Unparen(cl.Fun).(*ast.SelectorExpr); ok && se.Sel.Name == "Read" && selField(info, se.X) == v.aof {
+						call = cl
+					}
+				}
+				return true
+			})
+		}
+		return call, res
+	}
+	cl := &AffClient{Fields: []*types.Var{v.aofsz}, Ghosts: []string{"S", "L0"}}
+	// redcon.ReadNextCommand: complete == false implies leftover == packet (nothing consumed; package
+	// contract, every `return false, ...` of the three readers returns the packet it was given). Ghost L0
+	// holds len(packet) before the call; on the !complete edge len(leftover) == L0.
+	var parseAs *ast.AssignStmt
+	if as, ok := v.parse.Block.Nodes[v.parse.Idx].(*ast.AssignStmt); ok && len(as.Lhs) == 5 && len(as.Rhs) == 1 {
+		parseAs = as
+	}
+	var completeObj, leftoverObj types.Object
+	if parseAs != nil {
+		if id, ok := parseAs.Lhs[0].(*ast.Ident); ok {
+			completeObj = info.ObjectOf(id)
+		}
+		if id, ok := parseAs.Lhs[3].(*ast.Ident); ok {
+			leftoverObj = info.ObjectOf(id)
 		}
 	}
-	c.check(lenOK, "subtract-remainder-length", sub.Pos(), "aofsz is decreased by len(<carry buffer>)", "aofsz is not decreased by the length of the incomplete remainder")
-	c.check(fg.Dominates(subs[0], truncs[0]) && mentionsField(info, truncs[0].Node, v.aofsz), "truncate-at-boundary", truncs[0].Node.Pos(),
-		"Truncate(aofsz) is dominated by the store that moves aofsz back to the command boundary", "the file is truncated at an offset that is not the last command boundary")
-	c.check(fg.Dominates(truncs[0], seeks[0]) && mentionsField(info, seeks[0].Node, v.aofsz), "seek-after-truncate", seeks[0].Node.Pos(),
-		"Seek(aofsz, 0) follows the truncate on every path", "after the truncate the write offset is not moved to the new end: the next append leaves a hole of zero bytes")
-	// no normal path from the truncate to a return avoiding the seek
-	skip, _ := fg.Reach(PathQuery{From: truncs[0], Target: func(l Loc) bool {
-		r, ok := l.Node.(*ast.ReturnStmt)
-		return ok && !returnsError(info, v.fn, r)
-	}, Avoid: func(l Loc) bool { return l.Block == seeks[0].Block && l.Idx == seeks[0].Idx }})
-	c.check(!skip, "truncate-seek-paired", truncs[0].Node.Pos(), "no normal return between Truncate and Seek", "loadAOF can return normally after the truncate without seeking")
-	c.check(errReturned(c, info, truncs[0].Node), "truncate-error-returned", truncs[0].Node.Pos(), "the error of Truncate is returned", "the error of Truncate is dropped")
-	c.check(errReturned(c, info, seeks[0].Node), "seek-error-returned", seeks[0].Node.Pos(), "the error of Seek is returned", "the error of Seek is dropped")
+	cl.Before = func(a *Aff, n ast.Node, st *affSpace) *affSpace {
+		if parseAs != nil && n == ast.Node(parseAs) {
+			if f, ok := a.LenForm(pcall.Args[0]); ok {
+				return st.assignMany(map[int]*affForm{a.Ghost("L0"): f})
+			}
+			return st.assignMany(map[int]*affForm{a.Ghost("L0"): nil})
+		}
+		return st
+	}
+	cl.Init = func(a *Aff, st *affSpace) *affSpace {
+		return st.assume(a.VarForm(a.Ghost("S")).add(a.VarForm(a.fidx[v.aofsz]), -1))
+	}
+	cl.After = func(a *Aff, n ast.Node, st *affSpace) *affSpace {
+		call, res := isRead(n)
+		if call == nil {
+			return st
+		}
+		s := a.Ghost("S")
+		if res != nil {
+			if f, ok := a.Form(res); ok {
+				return st.assignMany(map[int]*affForm{s: a.VarForm(s).add(f, 1)})
+			}
+		}
+		return st.assignMany(map[int]*affForm{s: nil})
+	}
+	// os.File.Read returns io.EOF only together with n == 0 (package os contract): on the edge
+	// where the read's error equals io.EOF the byte count is zero
+	var readN, readErr types.Object
+	for _, r := range reads {
+		if as, ok := r.Block.Nodes[r.Idx].(*ast.AssignStmt); ok && len(as.Lhs) == 2 {
+			if id, ok := as.Lhs[0].(*ast.Ident); ok {
+				readN = info.ObjectOf(id)
+			}
+			if id, ok := as.Lhs[1].(*ast.Ident); ok {
+				readErr = info.ObjectOf(id)
+			}
+		}
+	}
+	cl.Edge = func(a *Aff, facts []Fact, st *affSpace) *affSpace {
+		for _, f := range facts {
+			if id, ok := ast.Unparen(f.E).(*ast.Ident); ok && f.Tag == nil && f.Neg && completeObj != nil && info.ObjectOf(id) == completeObj && leftoverObj != nil {
+				// the test must see the values the call produced: complete is assigned only there, and
+				// leftover is not re-assigned between the call and the test
+				stale := false
+				inspectNoLit(v.fn.Decl.Body, func(m ast.Node) bool {
+					if as, ok := m.(*ast.AssignStmt); ok && as != parseAs && as.Pos() > parseAs.End() && as.End() < f.E.Pos() {
+						for _, l := range as.Lhs {
+							if lid, ok := ast.Unparen(l).(*ast.Ident); ok && info.ObjectOf(lid) == leftoverObj {
+								stale = true
+							}
+						}
+					}
+					return true
+				})
+				if i, ok := a.idx[leftoverObj]; ok && fg.assignCount(completeObj) <= 1 && !stale && f.E.Pos() > parseAs.End() {
+					st = st.assume(a.VarForm(i).add(a.VarForm(a.Ghost("L0")), -1))
+				}
+			}
+			be, ok := ast.Unparen(f.E).(*ast.BinaryExpr)
+			if !ok || f.Tag != nil || readErr == nil || readN == nil {
+				continue
+			}
+			id, ok := ast.Unparen(be.X).(*ast.Ident)
+			if !ok || info.ObjectOf(id) != readErr {
+				continue
+			}
+			se, ok := ast.Unparen(be.Y).(*ast.SelectorExpr)
+			if !ok || se.Sel.Name != "EOF" {
+				continue
+			}
+			if v, ok := info.ObjectOf(se.Sel).(*types.Var); !ok || v.Pkg() == nil || v.Pkg().Path() != "io" {
+				continue
+			}
+			if be.Op == token.EQL && !f.Neg || be.Op == token.NEQ && f.Neg {
+				if i, ok := a.idx[readN]; ok {
+					st = st.assume(a.VarForm(i))
+				}
+			}
+		}
+		return st
+	}
+	cl.FieldWrittenBy = func(call *ast.CallExpr, f *types.Var) bool {
+		callee := callee(info, call)
+		if callee == nil || mu.err != "" {
+			return false
+		}
+		if w, ok := writesAofsz[callee]; ok {
+			return w
+		}
+		w := false
+		units := []*Unit{mu.lk.ofDecl[callee]}
+		if callee == mu.ct.Command.Obj {
+			// the replayer feeds the dispatcher only commands of the logged (write) class
+			// (R3.vocabulary, R3.replay-path): their handlers are what can run here
+			units = nil
+			for _, h := range writeHandlers(c) {
+				units = append(units, mu.lk.ofDecl[h])
+			}
+		}
+		for _, u := range units {
+			if u == nil {
+				continue
+			}
+			for _, as := range mu.lk.effects(u, map[string]bool{"Server." + f.Name(): true}) {
+				if as.Acc.Write {
+					w = true
+				}
+			}
+		}
+		writesAofsz[callee] = w
+		return w
+	}
+	a := newAff(c, v.fn, cl)
+	ci, okc := a.idx[carry]
+	if !okc {
+		c.und("carry", pcall.Pos(), "the carry buffer %s is not a trackable local slice", carry.Name())
+		return
+	}
+	a.Run()
+	for _, nt := range a.Notes {
+		c.und("affine-analysis", v.fn.Decl.Pos(), "%s", nt)
+	}
+	// boundary = S - len(carry)
+	boundary := a.VarForm(a.Ghost("S")).add(a.VarForm(ci), -1)
+	prove := func(key string, l Loc, e ast.Expr, what, bad string) {
+		f, ok := a.Form(e)
+		if !ok {
+			c.bad(key, e.Pos(), "%s: %s is not an affine expression of the tracked offsets, so it cannot be shown to equal (bytes read) - len(%s): %s", what, exprStr(e), carry.Name(), bad)
+			return
+		}
+		st := a.At(l)
+		if os.Getenv("AFFDBG") != "" {
+			fmt.Fprintln(os.Stderr, "AFFDBG", key, a.Dump(st))
+		}
+		if st.bottom {
+			c.ok(key, e.Pos(), false, "%s: unreachable", what)
+			return
+		}
+		if st.holds(f.add(boundary, -1)) {
+			c.ok(key, e.Pos(), true, "%s: %s = (entry offset + bytes read) - len(%s) on every path (affine invariant, rank %d of %d)", what, exprStr(e), carry.Name(), st.rank(), a.N())
+		} else {
+			c.bad(key, e.Pos(), "%s: %s is not equal to (entry offset + bytes read) - len(%s) on every path: %s", what, exprStr(e), carry.Name(), bad)
+		}
+	}
+	for i, t := range truncs {
+		call := t.Node.(*ast.CallExpr)
+		key := "truncate-offset"
+		if i > 0 {
+			key = fmt.Sprintf("truncate-offset#%d", i+1)
+		}
+		if len(call.Args) != 1 {
+			c.und(key, call.Pos(), "unexpected Truncate arity")
+			continue
+		}
+		prove(key, t, call.Args[0], "Truncate", "the log is cut at an offset that is not the end of the last complete command: applied commands are cut off, or part of the torn tail stays in the file")
+	}
+	for i, sk := range seeks {
+		call := sk.Node.(*ast.CallExpr)
+		key := "seek-offset"
+		if i > 0 {
+			key = fmt.Sprintf("seek-offset#%d", i+1)
+		}
+		if len(call.Args) != 2 {
+			c.und(key, call.Pos(), "unexpected Seek arity")
+			continue
+		}
+		wh, okw := info.Types[call.Args[1]]
+		if !okw || wh.Value == nil || wh.Value.String() != "0" {
+			c.bad(key, call.Pos(), "Seek on the log is not relative to the start of the file (whence %s)", exprStr(call.Args[1]))
+			continue
+		}
+		prove(key, sk, call.Args[0], "Seek", "after the repair the write offset is not the new end of the file: the next append leaves a hole of zero bytes or overwrites commands")
+	}
+	// aofsz at every normal return
+	nret := 0
+	for _, r := range fg.Returns() {
+		rs := r.Node.(*ast.ReturnStmt)
+		if returnsError(info, v.fn, rs) {
+			continue
+		}
+		nret++
+		key := "aofsz-at-return"
+		if nret > 1 {
+			key = fmt.Sprintf("aofsz-at-return#%d", nret)
+		}
+		st := a.At(r)
+		f := a.VarForm(a.fidx[v.aofsz]).add(boundary, -1)
+		if st.bottom || st.holds(f) {
+			c.ok(key, rs.Pos(), true, "on normal return aofsz = (entry offset + bytes read) - len(%s)", carry.Name())
+		} else {
+			c.bad(key, rs.Pos(), "on a normal return of loadAOF, aofsz is not (entry offset + bytes read) - len(%s): the server's idea of the log size (used for follower positions, checksums and the next shrink) is wrong after start-up", carry.Name())
+		}
+	}
+	if nret == 0 {
+		c.und("aofsz-at-return", v.fn.Decl.Pos(), "no normal return found in loadAOF")
+	}
+	// ordering and error discipline of the repair
+	for _, t := range truncs {
+		for _, sk := range seeks {
+			_ = sk
+		}
+		skip, _ := fg.Reach(PathQuery{From: t, Target: func(l Loc) bool {
+			r, ok := l.Node.(*ast.ReturnStmt)
+			return ok && !returnsError(info, v.fn, r)
+		}, Avoid: func(l Loc) bool {
+			for _, sk := range seeks {
+				if l.Block == sk.Block && l.Idx == sk.Idx {
+					return true
+				}
+			}
+			return false
+		}})
+		c.check(!skip, "truncate-seek-paired", t.Node.Pos(), "no normal return between Truncate and Seek", "loadAOF can return normally after the truncate without seeking: the write offset stays beyond the cut and the next append creates a zero hole")
+		c.check(errReturned(c, info, t.Node), "truncate-error-returned", t.Node.Pos(), "the error of Truncate is returned", "the error of Truncate is dropped")
+	}
+	for _, sk := range seeks {
+		c.check(errReturned(c, info, sk.Node), "seek-error-returned", sk.Node.Pos(), "the error of Seek is returned", "the error of Seek is dropped")
+	}
 }
 
 func ruleNulSkip(c *Ctx) {
